@@ -180,4 +180,32 @@ theorem rejFirst_exhausted_iff (step : Nat → Option Bool) : ∀ (f i : Nat),
         · intro h m hm1 hm2
           exact h m (by omega) (by omega)
 
+/-! ### `RNG::uniformInt` under rounding -/
+
+/-- `uniformInt` with the two roundings of `uniformReal` made explicit: `rm` rounds the product `(b - a) * u`, `ra` the
+sum `… + a` (`(double)hi + 1.0 - (double)lo` is exact for `int` arguments); then `floor`, then the clamp -/
+noncomputable def uniformIntRnd (rm ra : ℝ → ℝ) (lo hi : Int) (u : ℝ) : Int :=
+  let r := ⌊ra (rm (((hi : ℝ) + 1 - lo) * u) + lo)⌋
+  if hi < r then hi else r
+
+/-- the same without the final clamp (seeded change s4) -/
+noncomputable def uniformIntRndNoClamp (rm ra : ℝ → ℝ) (lo hi : Int) (u : ℝ) : Int :=
+  ⌊ra (rm (((hi : ℝ) + 1 - lo) * u) + lo)⌋
+
+/-- round to the nearest multiple of 2⁻²² (the spacing of the doubles in [2³⁰, 2³¹)), halves up -/
+noncomputable def rndGrid22 (x : ℝ) : ℝ := (⌊x * 4194304 + 1 / 2⌋ : ℝ) / 4194304
+
+theorem rndGrid22_mono : Monotone rndGrid22 := by
+  intro x y h
+  unfold rndGrid22
+  have : ⌊x * 4194304 + 1 / 2⌋ ≤ ⌊y * 4194304 + 1 / 2⌋ := Int.floor_le_floor (by linarith)
+  have hc : (⌊x * 4194304 + 1 / 2⌋ : ℝ) ≤ (⌊y * 4194304 + 1 / 2⌋ : ℝ) := by exact_mod_cast this
+  exact div_le_div_of_nonneg_right hc (by norm_num)
+
+theorem rndGrid22_two30 : rndGrid22 1073741824 = 1073741824 := by
+  unfold rndGrid22
+  have : ⌊(1073741824 : ℝ) * 4194304 + 1 / 2⌋ = 4503599627370496 := by
+    rw [Int.floor_eq_iff]; constructor <;> norm_num
+  rw [this]; norm_num
+
 end OmplModel.SpaceBounds
